@@ -2,7 +2,7 @@
    the deadline from the headers reuses C15's theorems (hence its real-number axioms). *)
 From Coq Require Import ZArith List Bool Lia ZifyBool Reals Lra.
 From Flocq Require Import Core IEEE754.BinarySingleNaN IEEE754.Binary IEEE754.Bits.
-From GV Require Import Lib.Str Gen.Facts Model.Timeout Model.ServerDeadline Proofs.C15Proofs.
+From GV Require Import Lib.Str Gen.Facts Gen.FactsC05 Model.Timeout Model.ServerDeadline Proofs.C15Proofs.
 Import ListNotations.
 Open Scope Z_scope.
 #[local] Ltac Zify.zify_post_hook ::= Z.div_mod_to_equations.
@@ -37,19 +37,38 @@ Proof.
   - eexists. reflexivity.
 Qed.
 
+(* source facts: `with deadline_wrapper, wrapper:` and start()'s expired branch cancels, then raises;
+   hence an expired deadline is answered DEADLINE_EXCEEDED whether or not the reply path suspends *)
+Lemma source_order_facts :
+  handler_with_order = [CMDeadline; CMWrapper] /\
+  start_expired = [SA_bind_timeout_error; SA_cancel; SA_raise] /\
+  start_armed = [SA_callback_cancels; SA_call_later_timeout; SA_yield; SA_finally_timer_cancel].
+Proof. repeat split; reflexivity. Qed.
+
+Lemma expired_status_deadline rs : expired_status rs = StDeadline.
+Proof. destruct rs; vm_compute; reflexivity. Qed.
+
+(* the model is sensitive to both facts: wrapper entered first + a suspending reply path = no answer
+   at all; start() without self.cancel(error) = UNKNOWN (the repaired defect D7) *)
+Lemma expired_status_other_orders :
+  expired_status_of [CMWrapper; CMDeadline] start_expired true = StNoAnswer /\
+  expired_status_of [CMWrapper; CMDeadline] start_expired false = StDeadline /\
+  (forall rs, expired_status_of handler_with_order [SA_bind_timeout_error; SA_raise] rs = StUnknown).
+Proof. repeat split; try (intros [|]); vm_compute; reflexivity. Qed.
+
 (* (a) a value outside the grammar in ANY grpc-timeout header: UNKNOWN, the handler never runs *)
-Lemma serve_invalid a hs h :
+Lemma serve_invalid a hs h rs :
   Exists (fun v => ~ in_grammar v) (timeout_values hs) ->
-  serve a hs h = {| o_status := StUnknown; o_started := false; o_timer := None;
+  serve a hs h rs = {| o_status := StUnknown; o_started := false; o_timer := None;
                     o_cancel_at := None; o_end_at := a |}.
 Proof.
   intro H. destruct (from_headers_min hs) as (_ & A & _). unfold serve. rewrite (A H). reflexivity.
 Qed.
 
 (* (b) no grpc-timeout header: no timer, no cancellation -- the handler's own outcome *)
-Lemma serve_no_header a hs h :
+Lemma serve_no_header a hs h rs :
   timeout_values hs = [] ->
-  let o := serve a hs h in
+  let o := serve a hs h rs in
   o_timer o = None /\ o_cancel_at o = None /\ o_started o = true /\
   o_status o = final_status h (own_status (h_fin h)) /\ o_end_at o = fadd a (h_dur h).
 Proof.
@@ -60,14 +79,14 @@ Qed.
    the handler; otherwise a timer for `when`; a handler not finished strictly before `when` sees
    CancelledError at exactly `when` and the answer is DEADLINE_EXCEEDED whatever it does next
    (honours, swallows and returns / raises / raises GRPCError / raises TimeoutError) *)
-Lemma serve_deadline a hs h :
+Lemma serve_deadline a hs h rs :
   timeout_values hs <> [] -> Forall in_grammar (timeout_values hs) ->
   exists m ts,
     from_headers_timeout hs = Ok (Some m) /\
     (exists v, In v (timeout_values hs) /\ decode_timeout v = Ok m) /\
     (forall v x, In v (timeout_values hs) -> decode_timeout v = Ok x -> (Rnum m <= Rnum x)%R) /\
     py_add_float a m = Ok ts /\
-    let o := serve a hs h in
+    let o := serve a hs h rs in
     match time_remaining ts a with
     | None => o_status o = StDeadline /\ o_started o = false /\ o_timer o = None /\
               o_cancel_at o = None /\ o_end_at o = a
@@ -92,14 +111,14 @@ Proof.
   destruct (time_remaining ts a) as [rem|]; cbn zeta.
   - destruct (flt (fadd a (h_dur h)) (fadd a rem)) eqn:E; cbn;
       repeat split; try reflexivity; intros; try discriminate.
-  - cbn. auto.
+  - cbn. rewrite expired_status_deadline. auto.
 Qed.
 
 (* (d) the handler's own TimeoutError, with no deadline involvement, is NOT reported as
    DEADLINE_EXCEEDED (it is an application error: UNKNOWN) *)
-Lemma serve_own_timeout a hs h :
+Lemma serve_own_timeout a hs h rs :
   h_fin h = FRaiseTimeout -> h_trailers_first h = false ->
-  let o := serve a hs h in o_cancel_at o = None -> o_started o = true -> o_status o = StUnknown.
+  let o := serve a hs h rs in o_cancel_at o = None -> o_started o = true -> o_status o = StUnknown.
 Proof.
   intros Hf Ht. unfold serve.
   destruct (from_headers_timeout hs) as [[m|]|[|]]; cbn; try discriminate.
@@ -111,10 +130,10 @@ Proof.
 Qed.
 
 (* (e) DEADLINE_EXCEEDED is answered only when there is a deadline: never without a header *)
-Lemma serve_deadline_status_needs_header a hs h :
-  o_status (serve a hs h) = StDeadline -> timeout_values hs <> [].
+Lemma serve_deadline_status_needs_header a hs h rs :
+  o_status (serve a hs h rs) = StDeadline -> timeout_values hs <> [].
 Proof.
-  intros H E. destruct (serve_no_header a hs h E) as (_ & _ & _ & Hs & _).
+  intros H E. destruct (serve_no_header a hs h rs E) as (_ & _ & _ & Hs & _).
   rewrite Hs in H. unfold final_status in H.
   destruct (h_trailers_first h); [discriminate|]. destruct (h_fin h); discriminate.
 Qed.
@@ -164,10 +183,10 @@ Qed.
 
 (* (f) a governing grpc-timeout of value zero ('0n', '0S', ...): the deadline has passed on
    arrival at EVERY arrival instant -- DEADLINE_EXCEEDED, the handler never runs *)
-Lemma serve_zero_timeout a hs h m :
+Lemma serve_zero_timeout a hs h rs m :
   fin a = true -> (0 <= R64 a)%R ->
   from_headers_timeout hs = Ok (Some m) -> finnum m = true -> Rnum m = 0%R ->
-  serve a hs h = {| o_status := StDeadline; o_started := false; o_timer := None;
+  serve a hs h rs = {| o_status := StDeadline; o_started := false; o_timer := None;
                     o_cancel_at := None; o_end_at := a |}.
 Proof.
   intros Fa Ha Hm Fm Rm. unfold serve. rewrite Hm.
@@ -178,17 +197,17 @@ Proof.
       destruct (fadd_zero_r a (f_of_Z 0) Fa Hf Hr) as [A B]. eexists. split; [reflexivity|auto].
     - destruct (fadd_zero_r a f Fa Fm Rm) as [A B]. eexists. split; [reflexivity|auto]. }
   destruct X as (ts & Hts & Ft & Rt). rewrite Hts.
-  rewrite (time_remaining_none ts a Ft Fa); [reflexivity|lra|lra].
+  rewrite (time_remaining_none ts a Ft Fa); [rewrite expired_status_deadline; reflexivity|lra|lra].
 Qed.
 
 (* a deadline instant not after the arrival instant, however it came about (tiny values absorbed
    by the float addition at a large clock value): expired as well *)
-Lemma serve_expired a hs h m ts :
+Lemma serve_expired a hs h rs m ts :
   fin a = true -> fin ts = true -> (0 <= R64 ts <= R64 a)%R ->
   from_headers_timeout hs = Ok (Some m) -> py_add_float a m = Ok ts ->
-  serve a hs h = {| o_status := StDeadline; o_started := false; o_timer := None;
+  serve a hs h rs = {| o_status := StDeadline; o_started := false; o_timer := None;
                     o_cancel_at := None; o_end_at := a |}.
 Proof.
   intros Fa Ft Hr Hm Hts. unfold serve. rewrite Hm, Hts.
-  rewrite (time_remaining_none ts a Ft Fa); [reflexivity|lra|lra].
+  rewrite (time_remaining_none ts a Ft Fa); [rewrite expired_status_deadline; reflexivity|lra|lra].
 Qed.
